@@ -30,6 +30,8 @@ pub const SMALL_NAMES: &[&str] = &[
     "ß",
     "SS",
     "e",
+    // differs from the hot name "a.txt" by an embedded space only (the space is dropped from the alias, lossily)
+    "a .txt",
     "a:b",
     "",
 ];
@@ -65,6 +67,8 @@ pub enum K {
     SeekTruncate,
     /// a write hit by a transient storage fault and retried by the caller
     WriteRetry,
+    /// a flush hit by a transient storage fault and repeated by the caller
+    FlushRetry,
 }
 
 #[derive(Clone, Debug)]
@@ -111,7 +115,7 @@ impl GenCfg {
                 (K::Remove, 12),
                 (K::Rename, 16),
                 (K::Remount, 1),
-                (K::Tick, 1),
+                (K::Tick, 3),
                 (K::NewFileWritten, 4),
             ],
             presets: (0..PRESETS.len()).collect(),
@@ -143,11 +147,12 @@ impl GenCfg {
                 (K::Truncate, 8),
                 (K::Extents, 2),
                 (K::Remount, 1),
-                (K::Tick, 1),
+                (K::Tick, 3),
                 (K::NewFileWritten, 10),
                 (K::OpenSeekRead, 6),
                 (K::SeekTruncate, 5),
                 (K::WriteRetry, 5),
+                (K::FlushRetry, 3),
             ],
             invalid_names: false,
             rich_names: false,
@@ -175,7 +180,7 @@ impl GenCfg {
                 (K::Remove, 10),
                 (K::Rename, 10),
                 (K::Remount, 1),
-                (K::Tick, 1),
+                (K::Tick, 3),
                 (K::NewFileWritten, 10),
                 (K::OpenSeekRead, 3),
                 (K::SeekTruncate, 3),
@@ -390,6 +395,7 @@ pub fn decode_op(gc: &GenCfg, nt: &NameTable, cs: u32, r: &RawOp, mem: &mut Vec<
             Op::Seek { h, whence, off }
         }
         K::Flush => Op::Flush { h },
+        K::FlushRetry => Op::FlushRetry { h, k: r.b % 10, interrupted: r.c & 7 == 0 },
         K::CloseFile => Op::CloseFile { h },
         K::CloseDir => Op::CloseDir { d: h },
         K::Truncate => Op::Truncate { h },
